@@ -15,6 +15,7 @@ package base
 
 import (
 	"bytes"
+	"encoding/hex"
 	"errors"
 	"fmt"
 	"os"
@@ -599,7 +600,16 @@ func compareAndWriteFile(filePath string, b []byte) (bool, error) {
 			return false, err
 		}
 
-		if err := os.WriteFile(filePath, b, 0775); err != nil {
+		// Write to a temporary file first and rename it into place, so that a process crash never leaves an
+		// empty or half-written metadata file behind. The temporary name is hex-encoded so that it can never
+		// be mistaken for a metadata file when the entry is reloaded.
+		tmpPath := filepath.Join(
+			filepath.Dir(filePath), ".tmp-"+hex.EncodeToString([]byte(filepath.Base(filePath))))
+		if err := os.WriteFile(tmpPath, b, 0775); err != nil {
+			return false, err
+		}
+		if err := os.Rename(tmpPath, filePath); err != nil {
+			os.Remove(tmpPath)
 			return false, err
 		}
 		return true, nil
